@@ -13,8 +13,8 @@ import shutil
 from mc import common, cache, fsx
 from mc.common import Stats
 
-DEFS = [('A', 'def'), ('A2', 'def'), ('B', 'def'), ('C', 'def'), ('V', 'def'), ('A', 'noann'), ('A2', 'noann'), ('A', 'novec'),
-        ('C', 'novec'), ('A', 'off'), ('A2', 'uonly'), ('B', 'ponly')]
+DEFS = [('A', 'def'), ('A2', 'def'), ('E', 'def'), ('C', 'def'), ('V', 'def'), ('A', 'noann'), ('A2', 'noann'), ('A', 'novec'),
+        ('C', 'novec'), ('A', 'off'), ('A2', 'uonly'), ('B', 'ponly'), ('E2', 'def')]
 CTRL = [('newproc',), ('tick',), ('forget',), ('bytecode',)]
 CLOCK0 = 1500000000
 
